@@ -30,7 +30,7 @@ STUBS = [
 FLOAT_MODE = "D-mode (1e-7 grid) for coordinates, R-mode for weights"
 BOUNDS = {"quick": dict(points_2d=[2, 3], points_3d=[2], coordinate_range="[-50, 50] um"),
           "thorough": dict(points_2d=[2, 3, 4], points_3d=[2, 3], coordinate_range="[-50, 50] um")}
-OUTSIDE = ["static_hash / __eq__ (SHA-256 over tobytes())", "get_traps_from_coordinates (dict lookup by float tuples)",
+OUTSIDE = ["static_hash / __eq__ symbolically (SHA-256 over tobytes(): order independence is decided on the concrete twin of each shape only)", "get_traps_from_coordinates (dict lookup by float tuples)",
            "mappable register order is concrete enumeration (kernel shared with C08)"]
 
 
@@ -108,6 +108,11 @@ def h_order(shape):
             return obs + [("k1:every_trap_has_an_id", False)]
         distinct = distinct_after_rounding(P)
         obs.append(("k1:order_independent", IMPLIES(distinct, AND(*[EQ(x, y) for r1, r2 in zip(s1, s2) for x, y in zip(r1, r2)]))))
+        if core.Ctx.cur is None:
+            # equality and the static hash hash raw bytes, which only exist for numbers: decided on the concrete twin of each
+            # shape (the solver's witness points), not symbolically
+            same = bool(distinct) is False or (l1 == l2 and l1.static_hash() == l2.static_hash() and hash(l1) == hash(l2))
+            obs.append(("k1:eq_and_hash_order_independent", same))
         obs.append(("k1:ascending", AND(*[lex_le(a, b) for a, b in zip(s1, s1[1:])]) if n > 1 else True))
         # rows are the rounded inputs (a permutation of them)
         for r in s1:
@@ -231,6 +236,8 @@ def h_wmap(shape):
             obs.append(("k3:qubit_gets_weight_of_its_trap", IMPLIES(sep, EQ(g1["q%d" % i], W[i]))))
             obs.append(("k3:weight_map_order_independent", IMPLIES(sep, EQ(g1["q%d" % i], g2["q%d" % i]))))
         obs.append(("k3:no_trap_no_weight", AND(EQ(g1["qfar"], 0.0), EQ(g2["qfar"], 0.0))))
+        if core.Ctx.cur is None:
+            obs.append(("k3:map_eq_and_hash_order_independent", (not bool(sep)) or (m1 == m2 and m1.static_hash() == m2.static_hash())))
         # the SAME map object asked again about qubits that carry the same ids at OTHER positions (ids exchanged, one moved
         # away): the answer follows the positions, whatever was asked before
         if n == 2:  # (with three symbolic points the number of orderings makes these extra queries too expensive)
